@@ -62,3 +62,27 @@ Proof. exact ConvertSpec.convert_input_frozen. Qed.
 (* the scan is not empty: it saw the payloads and found the (benign) mutations that exist *)
 Example C09_scan_nonempty : Nat.leb 200 payloads_scanned && Nat.leb 10 (length rows) = true.
 Proof. vm_compute. reflexivity. Qed.
+
+(* "never returns a structure that aliases mutable host data" (Model/ConvertId.v is the identity-carrying version of
+   the C10 conversion model: every list, dict and set node carries its allocation index; the same index at two places
+   = the same object).  For ANY value [v] that evaluation hands to the finaliser - host containers included, with
+   arbitrary aliasing inside [v] - every mutable container of the result is a NEW object: allocated by this
+   conversion, distinct from every other container of the result, and not a container of [v].  With input conversion
+   on, the value of `$` itself contains no mutable container at all. *)
+From YV Require Model.ConvertId Lemmas.ConvertFresh.
+
+Theorem C09_result_not_aliased : forall o v n r n',
+  ConvertId.co_id o v n = Convert.Ok (r, n') -> (forall i, In i (ConvertId.cells v) -> i < n) ->
+  NoDup (ConvertId.cells r)
+  /\ (forall i, In i (ConvertId.cells r) -> n <= i < n')
+  /\ (forall i, In i (ConvertId.cells r) -> ~ In i (ConvertId.cells v)).
+Proof. exact ConvertFresh.co_id_fresh. Qed.
+
+Theorem C09_dollar_not_aliased : forall o d n r n',
+  (forall i, In i (ConvertId.cells d) -> i < n) ->
+  ConvertId.co_id o (ConvertId.inj (Convert.convert_input (ConvertId.erase d))) n = Convert.Ok (r, n') ->
+  ConvertId.cells (ConvertId.inj (Convert.convert_input (ConvertId.erase d))) = []
+  /\ NoDup (ConvertId.cells r)
+  /\ (forall i, In i (ConvertId.cells r) -> ~ In i (ConvertId.cells d))
+  /\ Convert.convert_output o (Convert.convert_input (ConvertId.erase d)) = Convert.Ok (ConvertId.erase r).
+Proof. exact ConvertFresh.dollar_fresh. Qed.
